@@ -98,9 +98,15 @@ static void scen_run(void)
                 unsigned char b_hl_cmd[NH], b_hl_kind[NH];
                 ASSUME(S.in[L1 - 1] == '\n');
 #ifdef PIN_TABLE
-                /* quick-tier variant: the table is pinned (+A plain, +B owns the uint8, +C implicit-write with a write handler);
-                 * symbolic: the argument bytes, the second line's command, the handler codes, the variable value */
+                /* quick-tier variants: most of the table is pinned; symbolic: the argument bytes, the commands addressed by both
+                 * lines, the handler codes, the variable value and
+                 *   PIN_TABLE 1: +C implicit-write with a write handler (over-long implicit write as first line)
+                 *   PIN_TABLE 2: the test-only flag of every command (write syntax on a test-only command as first line) */
+#if PIN_TABLE == 2
+                ASSUME((S.fl[0] & ~F_ONLY_TEST) == 0 && (S.fl[1] & ~F_ONLY_TEST) == 0 && (S.fl[2] & ~F_ONLY_TEST) == 0 && S.hm[0] == 15 && S.hm[1] == 15 && S.hm[2] == 15);
+#else
                 ASSUME(S.fl[0] == 0 && S.fl[1] == 0 && S.fl[2] == F_IMPLICIT && S.hm[0] == 15 && S.hm[1] == 15 && S.hm[2] == H_WRITE);
+#endif
                 ASSUME(S.gd[0] == 0 && S.gd[1] == 0 && S.vacc[0] == 0 && S.vacc[1] == 0 && S.vcb[0] == 0 && S.vcb[1] == 0);
 #endif
                 world_build();
@@ -221,7 +227,12 @@ static void scen_sample(void)
         left = rnd(R + 1); while (left--) S.sw[rnd(N)] = 1;
         S.v2[0] = (unsigned char)rnd(256); S.v2[1] = (unsigned char)rnd(256);
 #ifdef PIN_TABLE
+#if PIN_TABLE == 2
+        S.fl[0] = (unsigned char)(rnd(2) ? F_ONLY_TEST : 0); S.fl[1] = (unsigned char)(rnd(2) ? F_ONLY_TEST : 0); S.fl[2] = (unsigned char)(rnd(2) ? F_ONLY_TEST : 0);
+        S.hm[0] = S.hm[1] = S.hm[2] = 15;
+#else
         S.fl[0] = S.fl[1] = 0; S.fl[2] = F_IMPLICIT; S.hm[0] = S.hm[1] = 15; S.hm[2] = H_WRITE;
+#endif
         S.gd[0] = S.gd[1] = 0; S.vacc[0] = S.vacc[1] = 0; S.vcb[0] = S.vcb[1] = 0;
 #endif
         if (MODE == 2 && rnd(2)) S.vacc[rnd(2)] = 2;
